@@ -43,6 +43,10 @@ def run_case(run, drv, rng, case_seed):
                 "opts": m["opts"], "files": [(r, b.token()) for r, b in m["files"]],
                 "pl": m["pl"], "edits": []}
         meta = judge(run, case, m["raw"], m["version"], drv, "create")
+        if m["creator"] != "cli":
+            from harness.props import creation as cr
+            cr.ask_createfull(drv, ("createfull", dict(case, stage="create"), m["raw"]), m["creator"],
+                              m["files"], m["pl"], m["single"], m["name"], m["raw"], opts=m["opts"])
         nlayers = len(meta.get(b"piece layers", {})) if isinstance(meta, dict) else 0
         added = False
         for step in range(rng.randrange(0, 7)):
@@ -75,7 +79,8 @@ def run(tier, seed, replay=None):
         seeds = [run.rng.randrange(10 ** 9) for _ in range(120 if tier == "quick" else 1200)]
     for s in seeds:
         run_case(run, drv, run.rng, s)
-    for (kind, case, strict_ok), req, out in drv.run():
+    from harness.props import creation as cr
+    for (kind, case, strict_ok), req, out in cr.settle_createfull(run, drv.run()):
         if out.startswith("ERR"):
             if os.environ.get("VERIF_DEV") and "bad-op" in out:
                 continue
